@@ -296,21 +296,21 @@ func resolveRolesG(a *A, rule string, groups string) *Roles {
 		if !a.need(r.Reader != nil, rule, "reader goroutine body") || !a.need(r.EventChan != nil, rule, "event channel make") {
 			return nil
 		}
-		instrs(r.Reader, func(in ssa.Instruction) {
-			if c, ok := in.(*ssa.Call); ok {
-				if f := c.Common().StaticCallee(); f != nil && f.Pkg == w.Root {
-					calls := false
-					instrs(f, func(i2 ssa.Instruction) {
-						if cc := callCommon(i2); cc != nil && isInvokeOf(cc, "ReadPacket") {
-							calls = true
-						}
-					})
-					if calls {
-						r.ReadEvent = f
-					}
-				}
+		// the packet decoder: the function reachable from the reader that itself calls ReadPacket (not the reader's own body)
+		for f := range reachableIn(w.Root, r.Reader) {
+			if f == r.Reader {
+				continue
 			}
-		})
+			calls := false
+			instrs(f, func(i2 ssa.Instruction) {
+				if cc := callCommon(i2); cc != nil && isInvokeOf(cc, "ReadPacket") {
+					calls = true
+				}
+			})
+			if calls && (r.ReadEvent == nil || f.Pos() < r.ReadEvent.Pos()) {
+				r.ReadEvent = f
+			}
+		}
 		if !a.need(r.ReadEvent != nil, rule, "packet decoder (reader's callee that calls ReadPacket)") {
 			return nil
 		}
